@@ -4,5 +4,5 @@ prop="$1"; file="$2"; expr="$3"; shift 3
 d=$(mktemp -d /tmp/scratch_XXXX); cp -r /repo/src "$d/src"
 sed -i -E "$expr" "$d/src/$file"
 if diff -q /repo/src/$file $d/src/$file >/dev/null; then echo "NO-CHANGE"; rm -rf $d; exit 9; fi
-(cd /verif && PYVC_SRC=$d/src ./check "$prop" --tier quick "$@" 2>&1 | grep -E "^(VIOLATION|KNOWN|UNDECIDED|OUT-OF-REACH|SUMMARY|CHECKER|MISSING)" | cut -c1-260 | head -8)
+(cd /verif && PYVC_SRC=$d/src PYVC_EVIDENCE_DIR=.run/evidence_mut ./check "$prop" --tier quick "$@" 2>&1 | grep -E "^(VIOLATION|KNOWN|UNDECIDED|OUT-OF-REACH|SUMMARY|CHECKER|MISSING)" | cut -c1-260 | head -8)
 rm -rf "$d"
